@@ -1434,6 +1434,9 @@ class FortranFile:
             # not be taken for a continuation that swallows the next line
             if self.preproc and FRegex.PP_ANY.match(line):
                 continue
+            # A new statement: documentation that follows it belongs to what it
+            # declares, if anything, not to the entity declared before it
+            file_ast.last_obj = None
             # Get full line, seek forward for code lines
             # @note line_no-1 refers to the array index for the current line
             if get_full:
